@@ -28,7 +28,13 @@ logging.disable(logging.CRITICAL)
 LEAN_TARGETS = ["NfcVerif.Props.C05", "drv_c05"]
 
 THEOREMS = [
+    "NfcVerif.C05.dlc_prefix",
+    "NfcVerif.C05.dlc_conservation",
+    "NfcVerif.C05.dlc_window",
+    "NfcVerif.C05.dlc_seq_consistent",
     "NfcVerif.C05.dlc_emsgsize",
+    "NfcVerif.C05.dlc_collect_covered",
+    "NfcVerif.C05.dlc_no_stuck",
 ]
 
 OTHER = {"A": "B", "B": "A"}
@@ -199,6 +205,17 @@ class Walk:
                 self.fail("dlc-message-lost", "after draining: %s accepted %d, peer received %d"
                           % (d, len(self.acc[d]), len(self.got[OTHER[d]])))
 
+    def settle(self):
+        """after a close(): keep the links running so that DISC / DM are exchanged and read"""
+        if self.dead:
+            return
+        for _ in range(4):
+            for x in "AB":
+                self.do("collect " + x)
+                self.do("deliver " + OTHER[x])
+                self.do("recv " + OTHER[x])
+                self.do("send %s %s" % (x, hx(self.msg(2))))
+
     def finish(self):
         self.pair.cleanup()
         return self
@@ -246,6 +263,8 @@ def random_walk(ck, cfg, steps, label, micro=False, close_at=None):
         else:
             w.do("%s %s" % (k, x))
     w.drain()
+    if close_at is not None:
+        w.settle()
     return w.finish()
 
 
